@@ -33,6 +33,21 @@ for _pid, _a, _what in (("C01", "a01", "outcome, stacks and output equal the ref
         "assumptions": ["pre-states satisfy size <= max on every stack (inductive invariant, itself asserted as post-condition under C03)",
                         "reference step REF (harness/src/push_ref) is validated natively against the repository's own test vectors"],
         "unclaimed": True,
+        # exec harnesses: a PushProgram read back from the heap loses its concrete discriminant in CBMC, so its
+        # drop glue / clone explore every variant recursively.  The recursion is cut at the nesting depth the
+        # harness builds (flat sentinels: 1, one-element blocks: 2); unwinding assertions check the cut.
+        "unwind_by_harness": [("^c01_(t_)?exec_", 6)],
+        "unwindset_by_harness": [
+            ("^c01_t_exec_.*_nested$", [(r"drop_glueNtNtNt\w+_4push7push_vm7program11PushProgramE", 2), (r"^_RNvX\w*7programNt\w+11PushProgramNt\w+5clone5Clone5clone", 2),
+                                        (r"drop_glueSNtNtNt\w+_4push7push_vm7program11PushProgramE", 2)]),
+            ("^c01_t_dispatch_", [(r"drop_glueNtNtNt\w+_4push7push_vm7program11PushProgramE", 1), (r"^_RNvX\w*7programNt\w+11PushProgramNt\w+5clone5Clone5clone", 1),
+                                (r"drop_glueSNtNtNt\w+_4push7push_vm7program11PushProgramE", 1)]),
+            ("^c01_exec_", [(r"drop_glueNtNtNt\w+_4push7push_vm7program11PushProgramE", 1), (r"^_RNvX\w*7programNt\w+11PushProgramNt\w+5clone5Clone5clone", 1),
+                            (r"drop_glueSNtNtNt\w+_4push7push_vm7program11PushProgramE", 1)]),
+        ],
+        "caps_by_harness": [("power", (600, 12)), ("^c01_t_exec_", (1500, 14)), ("^c01_t_dispatch_", (1500, 14))],
+        # exec harnesses with >= 2 programs need 4-8 GB each: at most 4 side by side
+        "weight_by_harness": [("^c01_t_exec_", 4), ("^c01_t_dispatch_", 2), ("^c01_exec_(if_else_e2|push_empty)", 2)],
     }
 
 PROPS["C04"] = {
@@ -265,6 +280,13 @@ def caps_for(cfg, tier, short):
         if re.search(pat, short):
             return c
     return caps(cfg, tier)
+
+
+def weight_for(cfg, short):
+    for pat, w in cfg.get("weight_by_harness", []):
+        if re.search(pat, short):
+            return w
+    return 1
 
 
 def unwind_override(cfg, short):
